@@ -266,7 +266,16 @@ func (c *gclient) DeleteWithPropagationPolicy(rs kube.ResourceList, pol metav1.D
 	c.call("delete", func() { res, errs = c.Client.DeleteWithPropagationPolicy(rs, pol) })
 	return
 }
-func (c *gclient) GetWaiter(kube.WaitStrategy) (kube.Waiter, error) { return &waiter{c.o}, nil }
+// GetWaiter answers like kube.Client.GetWaiter: only the three known strategies have a
+// waiter (here: the stub), anything else — in particular the empty strategy of an action
+// built without one — is "unknown wait strategy".
+func (c *gclient) GetWaiter(ws kube.WaitStrategy) (kube.Waiter, error) {
+	switch ws {
+	case kube.StatusWatcherStrategy, kube.LegacyStrategy, kube.HookOnlyStrategy:
+		return &waiter{c.o}, nil
+	}
+	return nil, errors.New("unknown wait strategy")
+}
 
 type waiter struct{ o *opCtl }
 
@@ -351,14 +360,14 @@ func runOp(cfg *action.Configuration, op *eng.Op) error {
 		a.ReleaseName, a.Namespace = eng.RelName, eng.RelNS
 		a.Atomic, a.Replace, a.DisableHooks, a.DryRun, a.DryRunOption = f.Atomic, f.Replace, f.NoHooks, f.DryRun, f.DryRunOption
 		a.ClientOnly, a.TakeOwnership = f.ClientOnly, f.TakeOwnership
-		a.Timeout = time.Second
+		a.Timeout, a.WaitStrategy = time.Second, kube.HookOnlyStrategy // the CLI default of --wait
 		_, err = a.Run(ch, vals)
 	case "upgrade":
 		a := action.NewUpgrade(cfg)
 		a.Namespace = eng.RelNS
 		a.Atomic, a.CleanupOnFail, a.DisableHooks, a.DryRun, a.DryRunOption = f.Atomic, f.Cleanup, f.NoHooks, f.DryRun, f.DryRunOption
 		a.MaxHistory, a.TakeOwnership = f.MaxHistory, f.TakeOwnership
-		a.Timeout = time.Second
+		a.Timeout, a.WaitStrategy = time.Second, kube.HookOnlyStrategy // the CLI default of --wait
 		_, err = a.Run(eng.RelName, ch, vals)
 	default:
 		err = fmt.Errorf("conc: unsupported operation kind %q", op.Kind)
